@@ -42,6 +42,9 @@ static inline void tsan_ignore_end() {}
 
 namespace sim {
 
+void sb_flush_current();   // drains the running task's store buffer (TSan build; a no-op elsewhere)
+void sb_flush_prefix(size_t n);
+
 static const char* kYieldNames[Y_NKINDS] = {
     "START", "LOCK", "UNLOCK", "FACTORY_IN", "FACTORY_MID", "FACTORY_OUT", "READ", "SKIP",
     "SRC_DTOR", "FOPEN", "CK_READ", "CK_SEEK", "CK_CLOSE", "ATOMIC_LD", "ATOMIC_ST",
@@ -71,6 +74,8 @@ struct Task {
   bool started = false;
   int prio = 0;
   // Thread-local storage of this simulated thread (library built with -femulated-tls; see __wrap___emutls_get_address).
+  struct SbEntry { volatile void* addr; uint64_t val; int size; int mo; int ttl; };
+  std::vector<SbEntry> sb;      // store buffer (see SchedConfig::store_buffer)
   char scope[48];               // stack of 'L' (inside library code) / 'H' (inside harness code called from it)
   int scope_sp = 0;
   std::vector<std::pair<void*, void*>> tls;                       // emutls control object -> this task's instance
@@ -89,6 +94,7 @@ struct Sched {
   const void* main_stack_bottom = nullptr;
   size_t main_stack_size = 0;
   uint64_t seq = 0;
+  uint64_t sb_rng = 0x9e3779b97f4a7c15ULL;
 };
 
 Sched* g = nullptr;
@@ -140,6 +146,7 @@ void trampoline(unsigned lo, unsigned hi) {
   tsan_ignore_begin();
   (*t->body)();
   tsan_ignore_end();
+  sb_flush_current();
   // "Thread exit": destructors of the thread's thread_local objects run on the thread, visible to TSan.
   while (!t->tls_dtors.empty()) {
     auto d = t->tls_dtors.back();
@@ -202,10 +209,15 @@ void note_window(int) {}
 static void scope_push(char k) { Task* t = g->tasks[g->cur]; if (t->scope_sp < 48) t->scope[t->scope_sp] = k; t->scope_sp++; }
 static void scope_pop() { Task* t = g->tasks[g->cur]; if (t->scope_sp > 0) t->scope_sp--; }
 static bool in_library() { if (!in_task()) return false; Task* t = g->tasks[g->cur]; return t->scope_sp > 0 && t->scope_sp <= 48 && t->scope[t->scope_sp - 1] == 'L'; }
-HarnessScope::HarnessScope() { if (in_task()) { tsan_ignore_begin(); scope_push('H'); } }
+bool in_library_scope() { return in_library(); }
+// Store buffers (TSan build only; defined next to the atomic wraps).  Everything that is a full fence on the hardware
+// drains the running task's buffer: lock and unlock, condition variables, static-initialisation guards, system calls
+// (every seam), read-modify-write and seq_cst operations, and the end of the thread.
+void sb_flush_current();
+HarnessScope::HarnessScope() { if (in_task()) { if (in_library()) sb_flush_current(); tsan_ignore_begin(); scope_push('H'); } }
 HarnessScope::~HarnessScope() { if (in_task()) { scope_pop(); tsan_ignore_end(); } }
 LibraryScope::LibraryScope() { if (in_task()) { tsan_ignore_end(); scope_push('L'); } }
-LibraryScope::~LibraryScope() { if (in_task()) { scope_pop(); tsan_ignore_begin(); } }
+LibraryScope::~LibraryScope() { if (in_task()) { sb_flush_current(); scope_pop(); tsan_ignore_begin(); } }
 
 static std::vector<std::pair<void (*)(void*), void*>>& lib_exit_handlers() { static std::vector<std::pair<void (*)(void*), void*>> v; return v; }
 int library_exit_handlers_registered() { return static_cast<int>(lib_exit_handlers().size()); }
@@ -221,11 +233,27 @@ static int run_library_exit_handlers() {
 NoYield::NoYield() { if (in_task()) g->tasks[g->cur]->noyield++; }
 NoYield::~NoYield() { if (in_task()) g->tasks[g->cur]->noyield--; }
 
+namespace {
+// What HarnessScope does, minus the store-buffer drain: a yield point is not a fence.
+struct YieldScope {
+  YieldScope() { tsan_ignore_begin(); scope_push('H'); }
+  ~YieldScope() { scope_pop(); tsan_ignore_end(); }
+};
+}  // namespace
+
 void yield(YieldKind k) {
   if (!in_task()) return;
-  HarnessScope hs;
+  YieldScope hs;
   Task* t = g->tasks[g->cur];
   if (t->guard_depth > 0 || t->noyield > 0) return;
+  if (!t->sb.empty()) {
+    // The hardware drains the buffer whenever it likes: every entry got a random time to live (in yield points of its
+    // task) when it was buffered; entries leave in order, so an expired one takes everything older with it.
+    size_t upto = 0;
+    for (size_t i = 0; i < t->sb.size(); ++i) if (--t->sb[i].ttl <= 0) upto = i + 1;
+    if (k == Y_END || t->sb.size() > 12) upto = t->sb.size();
+    if (upto) sb_flush_prefix(upto);
+  }
   if (g->cfg->disabled_kinds & (1u << k)) return;
   t->pending = k;
   to_main(t, false);
@@ -254,6 +282,7 @@ SchedResult run_tasks(const std::vector<std::function<void()>>& bodies, const Sc
   }
 #endif
   g = &s;
+  s.sb_rng ^= cfg.seed * 0x2545F4914F6CDD1DULL;
   depths().clear();
   Rng rng(cfg.seed);
   for (size_t i = 0; i < bodies.size(); ++i) {
@@ -393,6 +422,7 @@ void task_tls_atexit(void (*fn)(void*), void* obj) {
 }
 void mutex_lock_enter(const void* m, bool recursive) {
   Task* t = g->tasks[g->cur];
+  sb_flush_current();
   yield(Y_LOCK);
   if (owner_of(m) == t->id && recursive) { depth_of(m)++; return; }   // recursive mutex re-entered by its owner
   // (a non-recursive mutex locked again by its owner blocks below and is reported as a deadlock)
@@ -407,6 +437,7 @@ void mutex_lock_enter(const void* m, bool recursive) {
   depth_of(m) = 1;
 }
 void mutex_unlock_leave(const void* m) {
+  sb_flush_current();
   if (owner_of(m) == g->cur && depth_of(m) > 1) { depth_of(m)--; return; }
   depth_of(m) = 0;
   set_owner(m, -1);
@@ -416,6 +447,7 @@ void mutex_unlock_leave(const void* m) {
 // Condition variables.  The caller has already released the mutex (real + simulated).
 bool cond_block(const void* cond, bool timed) {
   Task* t = g->tasks[g->cur];
+  sb_flush_current();
   g->res->cond_waits++;
   t->st = T_BLOCKED; t->on_cond = true; t->timed = timed; t->timed_out = false; t->blocked_on = cond; t->pending = Y_COND_WAIT;
   to_main(t, false);
@@ -423,6 +455,7 @@ bool cond_block(const void* cond, bool timed) {
   return t->timed_out;
 }
 void cond_wake(const void* cond, bool all) {
+  sb_flush_current();
   for (Task* t : g->tasks) if (t->st == T_BLOCKED && t->on_cond && t->blocked_on == cond) {
     t->st = T_RUNNABLE; t->blocked_on = nullptr;
     if (!all) break;
@@ -435,6 +468,7 @@ void mutex_release_for_wait(const void* m) {
 }
 void rw_rdlock_enter(const void* m) {
   Task* t = g->tasks[g->cur];
+  sb_flush_current();
   yield(Y_LOCK);
   while (owner_of(m) >= 0) {   // a writer holds it
     g->res->contended_locks++;
@@ -445,13 +479,14 @@ void rw_rdlock_enter(const void* m) {
   depth_of(m)++;
 }
 void rw_unlock_leave(const void* m) {
+  sb_flush_current();
   if (owner_of(m) == -2) { if (--depth_of(m) > 0) return; }
   depth_of(m) = 0;
   set_owner(m, -1);
   for (Task* t : g->tasks) if (t->st == T_BLOCKED && !t->on_cond && t->blocked_on == m) { t->st = T_RUNNABLE; t->blocked_on = nullptr; }
   yield(Y_UNLOCK);
 }
-void guard_enter() { if (in_task()) g->tasks[g->cur]->guard_depth++; }
+void guard_enter() { if (in_task()) { sb_flush_current(); g->tasks[g->cur]->guard_depth++; } }
 void guard_leave() { if (in_task() && g->tasks[g->cur]->guard_depth > 0) g->tasks[g->cur]->guard_depth--; }
 }  // namespace detail
 
@@ -609,51 +644,115 @@ int __wrap_pthread_once(pthread_once_t* once, void (*fn)(void)) {
 }
 
 #if defined(SIM_TSAN)
-// Every atomic access made by instrumented (library) code is a yield point.
+// Every atomic access made by instrumented (library) code is a yield point.  With SchedConfig::store_buffer the stores
+// weaker than seq_cst are additionally delayed in a per-task FIFO (x86-TSO: a later load of another location may
+// overtake them; the task's own loads see them; they drain in order) - the one kind of weak-memory behaviour that the
+// hardware this code ships on actually shows, and that no sequentially consistent interleaving contains.
 typedef int morder;
+static const morder kSeqCst = 5;
+static inline bool sb_on() { return sim::g != nullptr && sim::in_task() && sim::g->cfg->store_buffer; }
+static bool sb_lookup(const volatile void* a, int size, uint64_t* v) {
+  auto& sb = sim::g->tasks[sim::g->cur]->sb;
+  for (size_t i = sb.size(); i-- > 0;) if (sb[i].addr == a && sb[i].size == size) { *v = sb[i].val; return true; }
+  return false;
+}
 #define SIM_ATOMIC_WRAPS(N, T)                                                                          \
   T __real___tsan_atomic##N##_load(const volatile T* a, morder mo);                                      \
   T __wrap___tsan_atomic##N##_load(const volatile T* a, morder mo) {                                     \
     sim::yield(sim::Y_ATOMIC_LD);                                                                        \
+    uint64_t fwd;                                                                                        \
+    if (sb_on() && sb_lookup(a, N, &fwd)) { sim::g->res->sb_forwarded++; return static_cast<T>(fwd); }   \
     return __real___tsan_atomic##N##_load(a, mo);                                                        \
   }                                                                                                      \
   void __real___tsan_atomic##N##_store(volatile T* a, T v, morder mo);                                   \
   void __wrap___tsan_atomic##N##_store(volatile T* a, T v, morder mo) {                                  \
     sim::yield(sim::Y_ATOMIC_ST);                                                                        \
+    if (sb_on() && mo != kSeqCst) {                                                                      \
+      sim::g->sb_rng = sim::g->sb_rng * 6364136223846793005ULL + 1442695040888963407ULL;                \
+      int ttl = static_cast<int>((sim::g->sb_rng >> 33) % static_cast<uint64_t>(sim::g->cfg->sb_ttl_max + 1)); \
+      sim::g->tasks[sim::g->cur]->sb.push_back({a, static_cast<uint64_t>(v), N, mo, ttl});               \
+      sim::g->res->sb_buffered++;                                                                        \
+      return;                                                                                            \
+    }                                                                                                    \
+    sim::sb_flush_current();                                                                             \
     __real___tsan_atomic##N##_store(a, v, mo);                                                           \
   }                                                                                                      \
   T __real___tsan_atomic##N##_exchange(volatile T* a, T v, morder mo);                                   \
   T __wrap___tsan_atomic##N##_exchange(volatile T* a, T v, morder mo) {                                  \
-    sim::yield(sim::Y_ATOMIC_RMW);                                                                       \
+    sim::yield(sim::Y_ATOMIC_RMW); sim::sb_flush_current();                                              \
     return __real___tsan_atomic##N##_exchange(a, v, mo);                                                 \
   }                                                                                                      \
   T __real___tsan_atomic##N##_fetch_add(volatile T* a, T v, morder mo);                                  \
   T __wrap___tsan_atomic##N##_fetch_add(volatile T* a, T v, morder mo) {                                 \
-    sim::yield(sim::Y_ATOMIC_RMW);                                                                       \
+    sim::yield(sim::Y_ATOMIC_RMW); sim::sb_flush_current();                                              \
     return __real___tsan_atomic##N##_fetch_add(a, v, mo);                                                \
   }                                                                                                      \
   T __real___tsan_atomic##N##_fetch_sub(volatile T* a, T v, morder mo);                                  \
   T __wrap___tsan_atomic##N##_fetch_sub(volatile T* a, T v, morder mo) {                                 \
-    sim::yield(sim::Y_ATOMIC_RMW);                                                                       \
+    sim::yield(sim::Y_ATOMIC_RMW); sim::sb_flush_current();                                              \
     return __real___tsan_atomic##N##_fetch_sub(a, v, mo);                                                \
+  }                                                                                                      \
+  T __real___tsan_atomic##N##_fetch_and(volatile T* a, T v, morder mo);                                  \
+  T __wrap___tsan_atomic##N##_fetch_and(volatile T* a, T v, morder mo) {                                 \
+    sim::yield(sim::Y_ATOMIC_RMW); sim::sb_flush_current();                                              \
+    return __real___tsan_atomic##N##_fetch_and(a, v, mo);                                                \
+  }                                                                                                      \
+  T __real___tsan_atomic##N##_fetch_or(volatile T* a, T v, morder mo);                                   \
+  T __wrap___tsan_atomic##N##_fetch_or(volatile T* a, T v, morder mo) {                                  \
+    sim::yield(sim::Y_ATOMIC_RMW); sim::sb_flush_current();                                              \
+    return __real___tsan_atomic##N##_fetch_or(a, v, mo);                                                 \
+  }                                                                                                      \
+  T __real___tsan_atomic##N##_fetch_xor(volatile T* a, T v, morder mo);                                  \
+  T __wrap___tsan_atomic##N##_fetch_xor(volatile T* a, T v, morder mo) {                                 \
+    sim::yield(sim::Y_ATOMIC_RMW); sim::sb_flush_current();                                              \
+    return __real___tsan_atomic##N##_fetch_xor(a, v, mo);                                                \
   }                                                                                                      \
   int __real___tsan_atomic##N##_compare_exchange_strong(volatile T* a, T* c, T v, morder mo, morder f);  \
   int __wrap___tsan_atomic##N##_compare_exchange_strong(volatile T* a, T* c, T v, morder mo, morder f) { \
-    sim::yield(sim::Y_ATOMIC_RMW);                                                                       \
+    sim::yield(sim::Y_ATOMIC_RMW); sim::sb_flush_current();                                              \
     return __real___tsan_atomic##N##_compare_exchange_strong(a, c, v, mo, f);                            \
   }                                                                                                      \
   int __real___tsan_atomic##N##_compare_exchange_weak(volatile T* a, T* c, T v, morder mo, morder f);    \
   int __wrap___tsan_atomic##N##_compare_exchange_weak(volatile T* a, T* c, T v, morder mo, morder f) {   \
-    sim::yield(sim::Y_ATOMIC_RMW);                                                                       \
+    sim::yield(sim::Y_ATOMIC_RMW); sim::sb_flush_current();                                              \
     return __real___tsan_atomic##N##_compare_exchange_weak(a, c, v, mo, f);                              \
   }
 SIM_ATOMIC_WRAPS(8, unsigned char)
 SIM_ATOMIC_WRAPS(16, unsigned short)
 SIM_ATOMIC_WRAPS(32, unsigned int)
 SIM_ATOMIC_WRAPS(64, unsigned long)
+void __real___tsan_atomic_thread_fence(morder mo);
+void __wrap___tsan_atomic_thread_fence(morder mo) {
+  if (mo == kSeqCst) sim::sb_flush_current();   // mfence; the weaker fences are no-ops on the hardware
+  __real___tsan_atomic_thread_fence(mo);
+}
 #endif
 
 }  // extern "C"
+
+namespace sim {
+void sb_flush_current() { sb_flush_prefix(static_cast<size_t>(-1)); }
+void sb_flush_prefix(size_t n) {
+#if defined(SIM_TSAN)
+  if (g == nullptr || !in_task()) return;
+  auto& sb = g->tasks[g->cur]->sb;
+  if (sb.empty()) return;
+  if (n > sb.size()) n = sb.size();
+  std::vector<Task::SbEntry> pending(sb.begin(), sb.begin() + static_cast<long>(n));
+  sb.erase(sb.begin(), sb.begin() + static_cast<long>(n));
+  for (const auto& e : pending) {
+    switch (e.size) {
+      case 8: __real___tsan_atomic8_store(static_cast<volatile unsigned char*>(e.addr), static_cast<unsigned char>(e.val), e.mo); break;
+      case 16: __real___tsan_atomic16_store(static_cast<volatile unsigned short*>(e.addr), static_cast<unsigned short>(e.val), e.mo); break;
+      case 32: __real___tsan_atomic32_store(static_cast<volatile unsigned int*>(e.addr), static_cast<unsigned int>(e.val), e.mo); break;
+      default: __real___tsan_atomic64_store(static_cast<volatile unsigned long*>(e.addr), static_cast<unsigned long>(e.val), e.mo); break;
+    }
+  }
+#else
+  (void)n;
+#endif
+}
+}  // namespace sim
 
 // std::condition_variable's wait/notify live inside libstdc++.so, where --wrap cannot reach their pthread
 // calls.  Interposing the three members from the executable routes them through the wrapped functions above
